@@ -158,7 +158,41 @@ func main() {
 	// ---- glob: the filters
 	gl := f.Src(f.Func("Globber.glob").Body)
 	filterSub := strings.Contains(gl, "if isInDirectories(m, walkedDir.subPackages) { continue }")
-	filterHidden := strings.Contains(gl, "if !includeHidden && isHidden(m) { continue }")
+	// where hidden entries are dropped, and what the walk cache is keyed by (facts of the Globber state machine)
+	hiddenPerMatch := strings.Contains(gl, "if !includeHidden && isHidden(m) { continue }")
+	hiddenAtWalk := strings.Contains(f.Src(wd.Body), "isHidden(")
+	keyHasHidden, keySeen := false, false
+	var wdParams []string
+	for _, fl := range wd.Type.Params.List {
+		for _, n := range fl.Names {
+			wdParams = append(wdParams, n.Name)
+		}
+	}
+	ast.Inspect(wd.Body, func(n ast.Node) bool {
+		ix, ok := n.(*ast.IndexExpr)
+		if !ok || !strings.HasSuffix(sel(ix.X), ".walkedDirs") {
+			return true
+		}
+		keySeen = true
+		if id, ok := ix.Index.(*ast.Ident); ok && len(wdParams) > 0 && id.Name == wdParams[0] {
+			return true // keyed by the root path alone
+		}
+		src := f.Src(ix.Index)
+		mentions := false
+		for _, p := range wdParams[1:] {
+			if strings.Contains(src, p) {
+				mentions = true
+			}
+		}
+		if !mentions {
+			xlib.Unreadable("walkDir: cache key %s is neither the root path nor built from the other parameters", src)
+		}
+		keyHasHidden = true
+		return true
+	})
+	if !keySeen {
+		xlib.Unreadable("walkDir: no look-up in globber.walkedDirs found")
+	}
 	filterExcl := strings.Contains(gl, "shouldExcludeMatch(rootPath, m, excludes)") && strings.Contains(gl, "if shouldExclude { continue }")
 
 	// ---- isInDirectories, isHidden
@@ -239,7 +273,7 @@ func main() {
 	for name, ok := range map[string]bool{"patternToMatcher uses builtInGlob without **": builtinWhenAbsent,
 		"patternToMatcher joins root": joinsRoot, "regexp from toRegexString(fullPattern)": regexFromFull,
 		"plz-out guarded by rootPath == \".\"": outGuardDot, "sub-package SkipDir": subPkgSkip, "symlink bucket": symlinkBucket,
-		"glob filters sub-packages": filterSub, "glob filters hidden": filterHidden, "glob filters excludes": filterExcl,
+		"glob filters sub-packages": filterSub, "glob filters excludes": filterExcl,
 		"isInDirectories by dir+\"/\"": inDirsComponent, "isHidden on filepath.Base": hiddenOnBase,
 		"shouldExcludeMatch: base path, file-name-only rule, matcher": excludeShape, "isBathPathOf": basePathShape,
 		"isBuildFile by base name": buildFileShape, "regexGlob.Match = regexp.MatchString (unanchored)": regexUnanchored,
@@ -268,7 +302,10 @@ func main() {
 	out.Def("subPackageSkip", "Bool", xlib.LeanBool(subPkgSkip))
 	out.Def("symlinkBucket", "Bool", xlib.LeanBool(symlinkBucket))
 	out.Def("filterSubPackages", "Bool", xlib.LeanBool(filterSub))
-	out.Def("filterHidden", "Bool", xlib.LeanBool(filterHidden))
+	out.Def("filterHidden", "Bool", xlib.LeanBool(hiddenPerMatch || hiddenAtWalk))
+	out.Def("cacheKeyHasHidden", "Bool", xlib.LeanBool(keyHasHidden))
+	out.Def("hiddenAtWalk", "Bool", xlib.LeanBool(hiddenAtWalk))
+	out.Def("hiddenPerMatch", "Bool", xlib.LeanBool(hiddenPerMatch))
 	out.Def("filterExcludes", "Bool", xlib.LeanBool(filterExcl))
 	out.Def("inDirsComponentwise", "Bool", xlib.LeanBool(inDirsComponent))
 	out.Def("hiddenOnBaseName", "Bool", xlib.LeanBool(hiddenOnBase))
